@@ -18,6 +18,7 @@
 package responseadaptor
 
 import (
+	"fmt"
 	"io"
 	"strconv"
 	"strings"
@@ -78,6 +79,25 @@ type (
 		Decompress string                `yaml:"decompress" jsonschema:"omitempty"`
 	}
 )
+
+// Validate verifies that compress and decompress are used consistently, so
+// that an unusable spec is rejected at validation time instead of making
+// Init panic.
+func (spec *Spec) Validate() error {
+	if spec.Decompress != "" && spec.Decompress != "gzip" {
+		return fmt.Errorf("ResponseAdaptor only support decompress type of gzip")
+	}
+	if spec.Compress != "" && spec.Compress != "gzip" {
+		return fmt.Errorf("ResponseAdaptor only support compress type of gzip")
+	}
+	if spec.Compress != "" && spec.Decompress != "" {
+		return fmt.Errorf("ResponseAdaptor can only do compress or decompress for given response body, not both")
+	}
+	if spec.Body != "" && spec.Decompress != "" {
+		return fmt.Errorf("no need to decompress when body is specified in ResponseAdaptor spec")
+	}
+	return nil
+}
 
 // Name returns the name of the ResponseAdaptor filter instance.
 func (ra *ResponseAdaptor) Name() string {
